@@ -958,7 +958,12 @@ class Facts:
             if fn.get('vis') != 'pub' and '{' not in path and path not in tab and path in self.bodies:
                 b = self.bodies[path]
                 if b.j.get('kind') != 'closure' and not b.j.get('impl_trait'):
-                    new.add(path)
+                    # a new function that itself dispatches on the schema node is a cell table of its own: the dispatch
+                    # matrices follow calls to it (nesting its match inside a caller's arm would blur both)
+                    dispatches = any('assign' in st and st['rv'].get('k') == 'discr' and (st['rv'].get('adt') or '').endswith('self_referential::SchemaNode')
+                                     for blk in b.blocks for st in blk['stmts'])
+                    if not dispatches:
+                        new.add(path)
         if not new:
             return []
         for i, b in enumerate(list(self.body_list)):
